@@ -127,7 +127,7 @@ pub fn draw_cfg(rng: &mut Rng, profile: &str, steps: usize) -> RunCfg {
         "fault" => *rng.pick(&[100u32, 200, 300]),
         _ => *rng.pick(&[0u32, 0, 10, 30, 60]),
     };
-    let parity = *rng.pick(&[alloc::Parity::Even, alloc::Parity::Odd, alloc::Parity::Mixed]);
+    let parity = *rng.pick(&[alloc::Parity::Even, alloc::Parity::Odd, alloc::Parity::Mixed, alloc::Parity::Mixed, alloc::Parity::Packed]);
     let realloc = *rng.pick(&[alloc::ReallocMode::Move, alloc::ReallocMode::InPlace, alloc::ReallocMode::Mixed]);
     RunCfg {
         steps: if steps <= 8 { steps } else { rng.range(steps / 4, steps) },
@@ -154,6 +154,7 @@ pub fn cfg_to_json(c: &RunCfg) -> J {
                 alloc::Parity::Even => "even",
                 alloc::Parity::Odd => "odd",
                 alloc::Parity::Mixed => "mixed",
+                alloc::Parity::Packed => "packed",
             },
         )
         .set(
@@ -172,6 +173,7 @@ pub fn parity_from(s: &str) -> alloc::Parity {
     match s {
         "odd" => alloc::Parity::Odd,
         "mixed" => alloc::Parity::Mixed,
+        "packed" => alloc::Parity::Packed,
         _ => alloc::Parity::Even,
     }
 }
